@@ -490,6 +490,10 @@ class SourceCatalog:
         for attr in init_attr:
             setattr(newcls, attr, getattr(self, attr))
 
+        # the list of extra properties is modified in place by
+        # add_extra_property; do not share it with the parent catalog
+        newcls._extra_properties = list(self._extra_properties)
+
         # _labels determines ordering and isscalar
         attr = '_labels'
         setattr(newcls, attr, getattr(self, attr)[index])
